@@ -147,3 +147,68 @@ def tv_stage(ctx, broken, items, got):
                         "reference": {"final": None if byid[cid]["ref"]["kind"] == "skip" else byid[cid]["ref"], }})
     return {"tv_programs": n_cmp, "tv_outside_model": n_unsup, "tv_outside_model_kinds": unsup_kinds, "tv_skipped_compile_error_or_multiform": n_skip,
             "tv_disagreements": len(dis)}, dis
+
+
+EXPAND = os.path.join(VERIF, "harness/C02/expand.janet")
+
+
+def _expand_and_sem(janet, exe, cases):
+    fd, path = tempfile.mkstemp(prefix="c02sem-", suffix=".txt", dir="/var/tmp")
+    try:
+        with os.fdopen(fd, "w") as f:
+            for cid, e0, src in cases:
+                f.write("#CASE %s %d\n%s" % (cid, e0, src if src.endswith("\n") else src + "\n"))
+        r = subprocess.run([janet, EXPAND, path], stdout=subprocess.PIPE, stderr=subprocess.PIPE, timeout=300)
+    finally:
+        os.unlink(path)
+    if r.returncode != 0:
+        return None, "expand.janet rc=%s %s" % (r.returncode, r.stderr.decode(errors="replace")[-300:])
+    lines = r.stdout.decode().splitlines()
+    try:
+        m = subprocess.run([exe], input=r.stdout, stdout=subprocess.PIPE, stderr=subprocess.PIPE, timeout=300)
+    except subprocess.TimeoutExpired:
+        return None, "model driver timeout (sem)"
+    if m.returncode != 0:
+        return None, "model driver rc=%s %s" % (m.returncode, m.stderr.decode(errors="replace")[-300:])
+    outs = m.stdout.decode(errors="replace").split("\n")
+    res = {}
+    for l, o in zip(lines, outs):
+        if l.startswith("sem "):
+            res[l.split()[1]] = o
+    return res, None
+
+
+def sem_stage(ctx, broken, janet, items, got):
+    """second reference: the Lean big-step semantics Lang/Sem run on the REAL macro expansion of every case (all contexts,
+    including the multi-form top level), compared with the real compiler+VM result."""
+    exe = ctx.driver()
+    if exe is None:
+        return {"sem_programs": 0}, []
+    cases = [("%d.%s" % (it["prog"], it["ctx"]), it["e0"], it["src"]) for it in items if it["ref"]["kind"] != "skip"]
+    chunks = [cases[i:i + 120] for i in range(0, len(cases), 120)]
+    res = {}
+    with cf.ThreadPoolExecutor(16) as ex:
+        for (r, err), ch in zip(ex.map(lambda c: _expand_and_sem(janet, exe, c), chunks), chunks):
+            if r is None:
+                broken.append("Lang/Sem pipeline: " + err)
+                ctx.broken.append(broken[-1])
+                continue
+            res.update(r)
+    byid = {"%d.%s" % (it["prog"], it["ctx"]): it for it in items}
+    n_cmp = n_unsup = n_skip = 0
+    kinds = {}
+    dis = []
+    for cid, o in sorted(res.items()):
+        g = got.get(cid)
+        if g is None or g["final"] is None or g["final"].startswith("C "):
+            n_skip += 1
+            continue
+        parts = o.split("\t")
+        if parts[0].startswith("U "):
+            n_unsup += 1
+            kinds[parts[0][2:40]] = kinds.get(parts[0][2:40], 0) + 1
+            continue
+        n_cmp += 1
+        if parts[0] != g["final"] or parts[1:] != g["trace"]:
+            dis.append({"case": cid, "source": byid[cid]["src"], "e0": byid[cid]["e0"], "lean_sem": {"final": parts[0], "trace": parts[1:]}, "real": g})
+    return {"sem_programs": n_cmp, "sem_outside_model": n_unsup, "sem_outside_model_kinds": kinds, "sem_skipped": n_skip, "sem_disagreements": len(dis)}, dis
